@@ -113,12 +113,34 @@ def check_L22(ctx, rep, scope):
             if before and max(before)[1] == 'emptied':
                 rep.inst('L22', '%s: a loop over the delta\'s `%s` runs while the map is drained (it is refilled only afterwards)' % (path, r[1]))
                 continue
-            for y, _ in walk(x['arms'][0]['b']):
+            for y, yps in walk(x['arms'][0]['b']):
                 if y.get('k') == 'mcall' and y['m'] in ('insert', 'push', 'extend'):
                     rr = _field_of(y['r'], {delta_id} | set(alias))
                     if rr:
                         f = alias.get(rr[0], rr[1])
                         if f in fields:
+                            # the completion of one reverse map must not hinge on the presence of another one (they are chosen
+                            # independently, by the index set of the program): no `let Some(..) = delta.<g> else { continue }` with g != f
+                            # before it in an enclosing block, no enclosing `if let Some(..) = delta.<g>`
+                            hinge = None
+                            chain = list(yps) + [y]
+                            for i_, q in enumerate(chain[:-1]):
+                                nxt = chain[i_ + 1]
+                                if q.get('k') == 'block':
+                                    for st in q.get('ss', []):
+                                        if st is nxt or any(z is nxt for z, _ in walk(st)):
+                                            break
+                                        if st.get('k') == 'let' and 'els' in st and 'i' in st:
+                                            g = _field_of(st['i'], {delta_id})
+                                            if g and g[1] in fields and g[1] != f:
+                                                hinge = g[1]
+                                if q.get('k') == 'if' and strip(q['c']).get('k') == 'let' and nxt is q['th']:
+                                    g = _field_of(strip(q['c'])['i'], {delta_id})
+                                    if g and g[1] in fields and g[1] != f:
+                                        hinge = g[1]
+                            if hinge:
+                                rep.inst('L22', '%s: the completion of `%s` only runs when `%s` exists' % (path, f, hinge))
+                                continue
                             completed.add(f)
         for f in sorted(fields):
             n += 1
@@ -636,3 +658,61 @@ def check_L32(ctx, rep):
                          % (first_i[2], first_i[1]['m'], last_c[1]['m']), loc=cr.loc(last_c[1]))
     if n < 1:
         raise Broken('L32: no function with both a collapsing call and kept class ids found in trrel_union_find_binary_ind (1 confirmed by reading)')
+
+
+# ------------------------------------------------------------------ L33
+
+def check_L33(ctx, rep):
+    """`EqRel::combine` (the step that folds `new` into the delta of the binary eqrel, L15's `combine`) carries every element of every
+    class of `other` over - also the only element of a one-element class (a reflexive fact about an element mentioned nowhere else).
+    Read off the code: the representative taken from a class with `next()` reaches `self.add(..)` / `add_node(..)` either outside
+    any loop over the rest of the class (a loop over the rest runs zero times for a singleton), or in a branch that is guarded by
+    `len() > 1` while another branch handles `len() == 1`."""
+    cr = ctx.lib('ascent_byods_rels')
+    b = cr.bodies.get('union_find::EqRel::<T>::combine')
+    if b is None:
+        raise Broken('L33: union_find::EqRel::combine not found')
+    rep.functions.add(b['path'])
+    from guards import conds_at
+    n = 0
+    reprs = []      # (local id, binding node, parents)
+    for x, parents in walk(b['tree']):
+        # `let repr = <..>.next().unwrap()` / `if let Some(repr) = <..>.next()`
+        if x.get('k') == 'let' and 'i' in x:
+            has_next = any(y.get('k') == 'mcall' and y['m'] == 'next' for y, _ in walk(x['i']))
+            if has_next:
+                for bb in pat_bindings(x['p']):
+                    reprs.append((bb['id'], x, parents))
+    if not reprs:
+        raise Broken('L33: no representative taken with next() in EqRel::combine (shape not recognised)')
+    for rid, bind, bparents in reprs:
+        adds = []
+        for x, parents in walk(b['tree']):
+            if x.get('k') == 'mcall' and x['m'] in ('add', 'add_node', 'add_node_new'):
+                if any((chain_root(a) or {}).get('id') == rid for a in x['a']):
+                    # loops between the binding's block and the call
+                    in_loop = False
+                    for p_ in parents:
+                        if p_ in bparents or p_ is bind:
+                            continue
+                        if p_.get('k') == 'loop' or (p_.get('k') == 'match' and p_.get('src') == 'for'):
+                            in_loop = True
+                    adds.append((x, in_loop))
+        n += 1
+        loop_free = any(not l for _, l in adds)
+        guarded = False
+        for c, pol in conds_at(bparents, bind):
+            c = strip(c)
+            if c.get('k') == 'binary' and pol and strip(c['l']).get('k') == 'mcall' and strip(c['l'])['m'] == 'len':
+                v = strip(c['r']).get('v')
+                if (c['op'] == '>' and v == '1') or (c['op'] == '>=' and v == '2'):
+                    guarded = True
+        ok = bool(adds) and (loop_free or guarded)
+        rep.inst('L33', 'EqRel::combine: a representative reaches add %s: %s' % (
+            'outside any loop over the rest' if loop_free else ('only inside a loop, under len() > 1' if guarded else 'ONLY inside a loop over the rest'), ok))
+        if not ok:
+            rep.viol('L33', b['path'], 'singleton-class-dropped',
+                     'the representative of a class of `other` is passed to `add` only inside the loop over the rest of the class: for a class with '
+                     'one element that loop runs zero times and the element (a reflexive fact about an element mentioned nowhere else) is '
+                     'dropped by the merge', loc=cr.loc(bind))
+    return n
